@@ -562,10 +562,45 @@ unsafe extern "C" fn sink_cb(chunk: *const c_char, len: size_t, ud: *mut c_void)
     sh.log.push(Rec::Chunk(b.to_vec()));
 }
 
+thread_local! {
+    static CALIBRATING: std::cell::Cell<bool> = const { std::cell::Cell::new(false) };
+}
+
+/// the message the C API reports when a handler returns LOL_HTML_STOP, obtained once per process from a run in which
+/// nothing else failed (not hard-coded: rewording it is not a defect)
+fn stop_message() -> &'static str {
+    static MSG: std::sync::OnceLock<String> = std::sync::OnceLock::new();
+    MSG.get_or_init(|| {
+        CALIBRATING.with(|c| c.set(true));
+        let cfg = Config { el: vec![crate::engine::ElH { selector: "*".into(), element: true, ..Default::default() }], fail_at: Some(1), ..Default::default() };
+        let r = run(&cfg, b"<a>", &[], History::default());
+        CALIBRATING.with(|c| c.set(false));
+        match r {
+            Ok(c) => c.result.log.iter().find_map(|r| if let Rec::Ret { res: Res::Err(ErrKind::Handler(m)), .. } = r { Some(m.clone()) } else { None }).unwrap_or_default(),
+            Err(_) => String::new(),
+        }
+    })
+}
+
+/// error kinds are recognised by comparing with what the Rust API itself prints for them (obtained at run time, not
+/// hard-coded: rewording a message is not a defect)
 fn classify(msg: &str) -> ErrKind {
-    if msg.contains("memory limit") {
+    static PARTS: std::sync::OnceLock<(String, String, String)> = std::sync::OnceLock::new();
+    let (mem, amb_head, amb_tail) = PARTS.get_or_init(|| {
+        let mem = lol_html::errors::RewritingError::MemoryLimitExceeded(lol_html::errors::MemoryLimitExceededError).to_string();
+        let amb = match lol_html::rewrite_str("<select><xmp>", lol_html::RewriteStrSettings::new().with_strict(true)) {
+            Err(e @ lol_html::errors::RewritingError::ParsingAmbiguity(_)) => e.to_string(),
+            _ => String::new(),
+        };
+        let (h, t) = match amb.find("xmp") {
+            Some(i) => (amb[..i].to_string(), amb[i + 3..].to_string()),
+            None => ("\u{0}".to_string(), "\u{0}".to_string()),
+        };
+        (mem, h, t)
+    });
+    if msg == mem {
         ErrKind::Mem
-    } else if msg.contains("ambiguous") {
+    } else if msg.len() >= amb_head.len() + amb_tail.len() && msg.starts_with(amb_head.as_str()) && msg.ends_with(amb_tail.as_str()) {
         ErrKind::Ambiguity
     } else {
         ErrKind::Handler(msg.to_string())
@@ -722,7 +757,7 @@ pub fn run(cfg: &Config, input: &[u8], cuts: &[usize], hist: History) -> Result<
             } else {
                 match take_str(&mut *sh, lolhtml::errors::lol_html_take_last_error()) {
                     Some(m) => {
-                        if (*sh).stop_returned && m != "The rewriter has been stopped." {
+                        if (*sh).stop_returned && !CALIBRATING.with(|c| c.get()) && m != stop_message() {
                             (*sh).probe_problems.push(format!("a handler returned LOL_HTML_STOP but the last error of the failed call is {m:?} (an older, never fetched message?)"));
                         }
                         Res::Err(classify(&m))
@@ -746,7 +781,7 @@ pub fn run(cfg: &Config, input: &[u8], cuts: &[usize], hist: History) -> Result<
             } else {
                 match take_str(&mut *sh, lolhtml::errors::lol_html_take_last_error()) {
                     Some(m) => {
-                        if (*sh).stop_returned && m != "The rewriter has been stopped." {
+                        if (*sh).stop_returned && !CALIBRATING.with(|c| c.get()) && m != stop_message() {
                             (*sh).probe_problems.push(format!("a handler returned LOL_HTML_STOP but the last error of the failed call is {m:?} (an older, never fetched message?)"));
                         }
                         Res::Err(classify(&m))
